@@ -14,7 +14,7 @@ RULE = ("requirement syntax trees drawn from each ecosystem's range grammar (npm
         ".* forms without epoch/local; Maven: unions of bracketed ranges, hard and soft versions), numbers small so that bounds "
         "collide, printed with random legal spelling/white space; candidates = every bound, its predecessor/successor in each "
         "component, prerelease neighbours (npm, Cargo), and random versions (PyPI: final releases with a non-zero segment; "
-        "Maven: dotted numbers; a second Maven stream carries qualifiers attached by - on ~30% of the bounds and candidates, judged against MavenSpec's ordering, candidates >= 0); the reference specification's own witness of non-emptiness is added as a candidate; 10% of the npm/Cargo requirements are plain (operators of the theorems on full releases) so that the region of the theorems is populated and counted; a quarter of the npm/Cargo candidates is asked again with SemVer build metadata (identifiers with - and .). Go answers MatchVersion, Constraint.Match(version string) and, for npm, Maven and PyPI, resolve.MatchRequirement for every (requirement, candidate), and the three must agree; the extracted reference "
+        "Maven: dotted numbers; a second Maven stream carries qualifiers attached by - on ~30% of the bounds and candidates, judged against MavenSpec's ordering, candidates >= 0); the reference specification's own witness of non-emptiness is added as a candidate; 7% of the npm/Cargo requirements apply every operator to every pattern of leading zeros (0.0.0, 0.0.z, 0.y.z, x.y.z), half with a prerelease tag; 10% of the npm/Cargo requirements are plain (operators of the theorems on full releases) so that the region of the theorems is populated and counted; a quarter of the npm/Cargo candidates is asked again with SemVer build metadata (identifiers with - and .). Go answers MatchVersion, Constraint.Match(version string) and, for npm, Maven and PyPI, resolve.MatchRequirement for every (requirement, candidate), and the three must agree; the extracted reference "
         "specification (Spec/*.v, validated against the real tool when present) answers on the syntax tree; the extracted "
         "model answers from the same parse tables. A case is non-trivial when the requirement is accepted and at least one "
         "candidate satisfies it and one does not")
@@ -225,6 +225,29 @@ def plain_ast(rng, eco):
     return [[rng.choice(ops)] + triple() + [[]]]
 
 
+def zero_pattern_ast(rng, eco):
+    """every operator on every pattern of leading zeros (0.0.0, 0.0.z, 0.y.z, x.y.z), half of
+    them with a prerelease tag, a fifth partial: the desugaring of ^ and ~ (and of Cargo's default
+    operator) branches on exactly these patterns; one comparator, sometimes two"""
+    def version():
+        z = lambda: rng.choice([1, 2, 3, 9])
+        t = rng.choice([[0, 0, 0], [0, 0, z()], [0, 0, z()], [0, z(), z()], [0, z(), 0], [z(), z(), z()], [z(), 0, 0]])
+        pre = [rng.choice([[1, b"beta"], [1, b"alpha"], [0, 0], [1, b"rc"]])] + ([[0, rng.choice([0, 1])]] if rng.random() < 0.4 else []) \
+            if rng.random() < 0.5 else []
+        if not pre and rng.random() < 0.2:
+            k = rng.choice([1, 2])
+            t = t[:k] + [-1] * (3 - k)
+        return t, pre
+    ops = [1, 2, 3, 4, 5, 6, 7, 7, 7, 6] + ([0] if eco == "npm" else [7])
+    cmps = []
+    for _ in range(rng.choice([1, 1, 1, 2])):
+        t, pre = version()
+        cmps.append((rng.choice(ops), t, pre))
+    if eco == "npm":
+        return [[1, [[op, t + [pre]] for op, t, pre in cmps]]]
+    return [[op] + t + [pre] for op, t, pre in cmps]
+
+
 def gen_cases(ctx):
     rng = ctx.rng
     per = ctx.scale(1100, 55000)
@@ -233,6 +256,7 @@ def gen_cases(ctx):
         for _ in range(per):
             plain = eco in ("npm", "cargo") and rng.random() < 0.1
             ast = plain_ast(rng, eco) if plain else \
+                zero_pattern_ast(rng, eco) if (eco in ("npm", "cargo") and rng.random() < 0.07) else \
                 collapsing_ast(rng, eco) if (eco in ("npm", "cargo") and rng.random() < 0.06) else ranges.gen_ast(rng, eco)
             text = ranges.print_ast(rng, eco, ast, plain=plain)
             pv = ranges.probes(rng, eco, ast, 4)
@@ -618,6 +642,22 @@ def npm_gte0(ast):
     return False
 
 
+def min_flag_conflict(eco, ast):
+    """F-C03-17: an and-list in which a comparator with only an upper bound (<, <=: its lower
+    bound is the 0.0.0-0 made by MinVersion, whose hidden isPrerelease flag is false) comes BEFORE
+    a comparator whose lower bound is the user-written 0.0.0-0: the bounds compare equal,
+    Intersect keeps the receiver's, and the prereleases of 0.0.0 are no longer admitted"""
+    lists = [item[1] for item in ast if item[0] == 1] if eco == "npm" else [[[cmp_[0], cmp_[1:]] for cmp_ in ast]]
+    for l in lists:
+        seen_upper = False
+        for op, pa in l:
+            if seen_upper and op in (0, 1, 3, 6, 7) and list(pa[:3]) == [0, 0, 0] and pa[3] == [[0, 0]]:
+                return True
+            if op in (4, 5):
+                seen_upper = True
+    return False
+
+
 def class_of(c, h, ev, impl_line):
     eco = c["eco"]
     rejected = not impl_line.startswith('("ok"')
@@ -649,6 +689,8 @@ def class_of(c, h, ev, impl_line):
         return None
     if rejected:
         return None
+    if eco in ("npm", "cargo") and cand_pre and cand[:3] == [0, 0, 0] and min_flag_conflict(eco, c["ast"]):
+        return "F-C03-17"
     if eco == "npm":
         parts = list(npm_partials(c["ast"]))
         if any(-1 in pa[:3] and any(x != -1 for x in pa[pa[:3].index(-1):3]) for _, pa in parts):
